@@ -430,7 +430,7 @@ fn scan_expect(b: &Bucket, exp: &[[u8; 2]]) {
     std::mem::forget(c);
 }
 
-// @ob props=C07,C01 tier=quick cap=1200 mem=8 fns=Cursor::next,Cursor::seek_first,Cursor::current,InnerBucket::page_node,InnerBucket::put,InnerBucket::node,PageNode::val,PageNode::len bound="concrete scenario (one execution): leaf {10,30}; put 20 (new); full scan" unwind=6
+// @ob props=C07,C01 tier=parked cap=1200 mem=8 fns=Cursor::next,Cursor::seek_first,Cursor::current,InnerBucket::page_node,InnerBucket::put,InnerBucket::node,PageNode::val,PageNode::len bound="concrete scenario (one execution): leaf {10,30}; put 20 (new); full scan" unwind=6
 #[kani::proof]
 #[kani::unwind(6)]
 fn cursor_scan_after_put_new_concrete() {
@@ -444,7 +444,7 @@ fn cursor_scan_after_put_new_concrete() {
     std::mem::forget(b);
 }
 
-// @ob props=C07,C01 tier=quick cap=1200 mem=8 fns=Cursor::next,Cursor::current,InnerBucket::page_node,InnerBucket::put,InnerBucket::get bound="concrete scenario (one execution): leaf {10,30}; put over 30; full scan and lookup" unwind=6
+// @ob props=C07,C01 tier=parked cap=1200 mem=8 fns=Cursor::next,Cursor::current,InnerBucket::page_node,InnerBucket::put,InnerBucket::get bound="concrete scenario (one execution): leaf {10,30}; put over 30; full scan and lookup" unwind=6
 #[kani::proof]
 #[kani::unwind(6)]
 fn cursor_scan_after_overwrite_concrete() {
@@ -489,7 +489,7 @@ fn cursor_scan_after_deletes_concrete() {
 }
 
 // ---- C07: two leaves under a branch; the transaction empties the FIRST leaf, the scan must still deliver the second
-// @ob props=C07 tier=thorough cap=3000 mem=10 fns=Cursor::next,Cursor::on_empty_leaf,Cursor::seek_first,Cursor::current,InnerBucket::page_node,InnerBucket::delete,InnerBucket::node,PageNode::val bound="concrete scenario (one execution): branch over leaves {10,20} and {30,40}; both keys of the first leaf deleted; then a full scan and a seek" unwind=6
+// @ob props=C07 tier=parked cap=3000 mem=10 fns=Cursor::next,Cursor::on_empty_leaf,Cursor::seek_first,Cursor::current,InnerBucket::page_node,InnerBucket::delete,InnerBucket::node,PageNode::val bound="concrete scenario (one execution): branch over leaves {10,20} and {30,40}; both keys of the first leaf deleted; then a full scan and a seek" unwind=6
 #[kani::proof]
 #[kani::unwind(6)]
 fn cursor_scan_after_emptying_first_leaf() {
@@ -515,7 +515,7 @@ fn cursor_scan_after_emptying_first_leaf() {
 }
 
 // ---- C07: two leaves; put into the second leaf, the scan crosses from an untouched page into a materialised node
-// @ob props=C07,C08 tier=thorough cap=3000 mem=10 fns=Cursor::next,Cursor::seek_first,Cursor::current,InnerBucket::page_node,InnerBucket::put,InnerBucket::node,Node::insert_child bound="concrete scenario (one execution): branch over leaves {10,20} and {30,40}; put 35; full scan; lookups in both leaves" unwind=6
+// @ob props=C07,C08 tier=parked cap=3000 mem=10 fns=Cursor::next,Cursor::seek_first,Cursor::current,InnerBucket::page_node,InnerBucket::put,InnerBucket::node,Node::insert_child bound="concrete scenario (one execution): branch over leaves {10,20} and {30,40}; put 35; full scan; lookups in both leaves" unwind=6
 #[kani::proof]
 #[kani::unwind(6)]
 fn cursor_scan_mixed_page_and_node() {
